@@ -38,11 +38,15 @@ Fixpoint list_eqb {A} (eqb : A -> A -> bool) (a b : list A) : bool :=
   | x :: a', y :: b' => eqb x y && list_eqb eqb a' b'
   | _, _ => false
   end.
+(* the entries of a Slice / the axes of a Squeeze are compared as sets: their order has no meaning in ONNX
+   (and none in the model: lookup_spec / existsb), so a reordering in the front end is not a disagreement *)
+Definition set_eqb {A} (eqb : A -> A -> bool) (a b : list A) : bool :=
+  Nat.eqb (length a) (length b) && forallb (fun x => existsb (eqb x) b) a && forallb (fun y => existsb (fun x => eqb x y) a) b.
 Definition op_eqb (a b : op) : bool :=
   match a, b with
   | OIdentity, OIdentity => true
-  | OSlice s, OSlice t => list_eqb spec_eqb s t
-  | OSqueeze s, OSqueeze t => list_eqb Nat.eqb s t
+  | OSlice s, OSlice t => set_eqb spec_eqb s t
+  | OSqueeze s, OSqueeze t => set_eqb Nat.eqb s t
   | OGather a i, OGather b j => Nat.eqb a b && gidx_eqb i j
   | _, _ => false
   end.
